@@ -79,6 +79,23 @@ type Case struct {
 	// NestedAt > 0: at that probe invocation (in a condition or an action) the fact method runs another small
 	// knowledge base to its end on the same engine value before the outer run goes on.
 	NestedAt int
+	// RemovedText / RemovedName / RemovedVia: a further rule (made of the rule set's own material) is built into
+	// the knowledge base and removed again before anything runs - through the library ("library") or from the
+	// instance right after it was created ("instance"). The rules that stay behave as if it had never been there.
+	RemovedText string
+	RemovedName string
+	RemovedVia  string
+	// RefTruth names rules whose condition is decided by the reference interpreter instead of the fresh engine
+	// (conditions of a shape for which the meaning is beyond doubt and the engine's own final boolean check is
+	// part of what is under test)
+	RefTruth map[string]bool
+}
+
+// ApplyRemoved performs the instance-level removal of the case on an instance the caller created itself.
+func ApplyRemoved(c *Case, kb *ast.KnowledgeBase) {
+	if c.RemovedName != "" && c.RemovedVia == "instance" && kb != nil {
+		kb.RemoveRuleEntry(c.RemovedName)
+	}
 }
 
 // Violation is a broken clause.
@@ -206,6 +223,14 @@ func Prepare(c *Case) (*Prepared, error) {
 			return nil, rerr
 		}
 	}
+	if c.RemovedName != "" {
+		if berr, _ := obs.BuildInto(lib, obs.KBName, obs.KBVersion, c.RemovedText); berr != nil {
+			return nil, fmt.Errorf("building the rule that is to be removed again: %v", berr)
+		}
+		if c.RemovedVia == "library" {
+			lib.RemoveRuleEntry(c.RemovedName, obs.KBName, obs.KBVersion)
+		}
+	}
 	p := &Prepared{Lib: lib, ByName: map[string]*gast.Rule{}}
 	for _, r := range c.Rules {
 		p.ByName[r.Name] = r
@@ -273,6 +298,7 @@ func RunOn(c *Case, p *Prepared, kb *ast.KnowledgeBase) *Report {
 			rep.Harness = "instance: " + err.Error()
 			return rep
 		}
+		ApplyRemoved(c, kb)
 		if c.PriorInit != nil && !c.PriorSameDC {
 			pl := c.PriorInit.Copy()
 			for _, f := range pl.Go {
@@ -322,6 +348,7 @@ func RunOn(c *Case, p *Prepared, kb *ast.KnowledgeBase) *Report {
 			pkb = c.PriorKB
 			if pkb == nil {
 				if other, oerr := obs.Instance(lib); oerr == nil {
+					ApplyRemoved(c, other)
 					pkb = other
 				} else {
 					pkb = kb
@@ -398,6 +425,13 @@ func RunOn(c *Case, p *Prepared, kb *ast.KnowledgeBase) *Report {
 			evaluatedNow[ev.Rule] = true
 			tr, terr := p.Solo.Truth(ev.Rule, live, dc)
 			ev.Truth, ev.TruthErr, ev.HasTruth = tr, terr, true
+			if c.RefTruth[ev.Rule] {
+				if rule, ok := p.ByName[ev.Rule]; ok {
+					if rv, rerr := ref.New(obs.Capture(live, dc)).Eval(rule.When); rerr == nil && rv.K == ref.KBool {
+						ev.Truth, ev.TruthErr = rv.B, nil
+					}
+				}
+			}
 			if c.RefFailures && terr == nil {
 				if rule, ok := p.ByName[ev.Rule]; ok {
 					if _, rerr := ref.New(obs.Capture(live, dc)).Eval(rule.When); rerr != nil && !ref.IsUndefined(rerr) {
@@ -817,6 +851,14 @@ func validate(c *Case, p *Prepared, rep *Report) {
 					d = append(d[:6], "...")
 				}
 				rep.add(prop, "cycle %d: after firing %s the facts differ from the reference replay of its actions: %s", cy.n, ex.Rule, strings.Join(d, "; "))
+				for ai, st := range rule.Then {
+					if cs, ok := st.(*gast.CallStmt); ok && ai < len(rule.Then)-1 {
+						if call, ok := unfreeze(cs.X).(*gast.Call); ok && call.Recv == nil && call.Name == "Complete" {
+							rep.add("C10", "cycle %d: the actions of rule %s that follow its Complete() call do not have their normal effect: %s", cy.n, ex.Rule, strings.Join(d, "; "))
+							break
+						}
+					}
+				}
 				if len(retracted) > 0 && !retracted[ex.Rule] {
 					rep.add("C10", "cycle %d: after Retract of %v the actions of rule %s, which was not retracted, no longer have their effect: %s", cy.n, names(retracted), ex.Rule, strings.Join(d, "; "))
 				}
